@@ -584,6 +584,10 @@ func runC08(c *Ctx) {
 				if !started {
 					if emptyFact(ft, false) {
 						started = true // data present
+					} else if cm, ok := normCmp(ft.Cond, ft.Val); ok && cm.Op == token.NEQ {
+						if (r.isLoad(origin(cm.X), r.head) && r.isLoad(origin(cm.Y), r.tail)) || (r.isLoad(origin(cm.X), r.tail) && r.isLoad(origin(cm.Y), r.head)) {
+							started = true
+						}
 					}
 					continue
 				}
@@ -592,6 +596,15 @@ func runC08(c *Ctx) {
 				}
 				if emptyFact(ft, true) && headAdvanced {
 					excused = true
+				}
+				// the advanced head held in a local (stored back later) and compared with the tail
+				if cm, ok := normCmp(ft.Cond, ft.Val); ok && cm.Op == token.EQL {
+					for _, pr := range [][2]ssa.Value{{cm.X, cm.Y}, {cm.Y, cm.X}} {
+						if r.isLoad(origin(pr[0]), r.tail) && !r.isLoad(origin(pr[1]), r.head) &&
+							computedFrom(pr[1], func(v ssa.Value) bool { return r.isLoad(v, r.head) }) {
+							excused = true
+						}
+					}
 				}
 				continue
 			}
@@ -788,4 +801,38 @@ func reachEdges(start ipos, stop func(ssa.Instruction) bool, stopEdge func(from,
 	}
 	walk(start, nil)
 	return out
+}
+
+// computedFrom: v is an integer computed (through arithmetic, conversions and phis) from a value satisfying src.
+func computedFrom(v ssa.Value, src func(ssa.Value) bool) bool {
+	seen := map[ssa.Value]bool{}
+	var rec func(v ssa.Value, d int) bool
+	rec = func(v ssa.Value, d int) bool {
+		if v == nil || seen[v] || d > 40 {
+			return false
+		}
+		seen[v] = true
+		if src(v) {
+			return true
+		}
+		if o := origin(v); o != v {
+			return rec(o, d+1)
+		}
+		switch x := v.(type) {
+		case *ssa.Phi:
+			for _, e := range x.Edges {
+				if rec(e, d+1) {
+					return true
+				}
+			}
+		case *ssa.BinOp:
+			return rec(x.X, d+1) || rec(x.Y, d+1)
+		case *ssa.Convert:
+			return rec(x.X, d+1)
+		case *ssa.ChangeType:
+			return rec(x.X, d+1)
+		}
+		return false
+	}
+	return rec(v, 0)
 }
